@@ -258,6 +258,15 @@ pub fn universe_names() -> Vec<String> {
 
 /// Build a zone directly from `content` through parsed::Zonefile/ZoneBuilder.
 pub fn build_direct(content: &Content) -> Result<Zone, String> {
+    build_direct_opt(content, false)
+}
+
+/// The same, with a few records offered on top that the loader refuses.
+pub fn build_direct_offering_refused(content: &Content) -> Result<Zone, String> {
+    build_direct_opt(content, true)
+}
+
+fn build_direct_opt(content: &Content, offer_refused: bool) -> Result<Zone, String> {
     let mut zf = parsed::Zonefile::new(stored_name(APEX), zone_class());
     // SOA first, then NS/DS (cuts), then the rest, so that the library's
     // own ordering rules for cuts and glue are satisfied.
@@ -281,7 +290,67 @@ pub fn build_direct(content: &Content) -> Result<Zone, String> {
     for s in specs {
         zf.insert(s.record()).map_err(|e| format!("insert {}: {}", s.line(), e))?;
     }
+    if offer_refused {
+        offer_records_the_loader_refuses(&mut zf, content);
+    }
     Zone::try_from(zf).map_err(|e| format!("build: {:?}", e))
+}
+
+/// A loader that goes on after an error (a zone file with a bad line in it):
+/// a few records that `parsed::Zonefile::insert` refuses given what is there
+/// already - a CNAME next to other data or at a zone cut, a second CNAME,
+/// other data next to a CNAME, a zone cut at a name with data or with a
+/// CNAME, other data at a zone cut, a record of another class. A refused
+/// record leaves no trace: the zone is the one its accepted records describe.
+fn offer_records_the_loader_refuses(zf: &mut parsed::Zonefile, content: &Content) {
+    let is_cut = |o: &String| o != APEX && content.contains_key(&(o.clone(), Rtype::NS));
+    let has_cname = |o: &String| content.contains_key(&(o.clone(), Rtype::CNAME));
+    let owners: Vec<String> = content.keys().map(|(o, _)| o.clone()).collect::<BTreeSet<_>>().into_iter().collect();
+    let plain: Vec<&String> = owners.iter().filter(|o| !is_cut(o) && !has_cname(o) && content.keys().any(|(oo, t)| oo == *o && !matches!(*t, Rtype::A | Rtype::AAAA))).collect();
+    let cuts: Vec<&String> = owners.iter().filter(|o| is_cut(o)).collect();
+    let cnames: Vec<&String> = owners.iter().filter(|o| has_cname(o)).collect();
+    for _ in 0..sim::draw("build.refused_offers", 4) {
+        let mut other_class = false;
+        let spec = match sim::draw("build.refused_kind", 8) {
+            0 if !plain.is_empty() => RecSpec { owner: (*sim::pick("build.refused_at", &plain)).clone(), rtype: Rtype::CNAME, ttl: 300, rdata: gen_rdata(Rtype::CNAME) },
+            1 if !cuts.is_empty() => RecSpec { owner: (*sim::pick("build.refused_at", &cuts)).clone(), rtype: Rtype::CNAME, ttl: 300, rdata: gen_rdata(Rtype::CNAME) },
+            2 if !cnames.is_empty() => RecSpec { owner: (*sim::pick("build.refused_at", &cnames)).clone(), rtype: Rtype::CNAME, ttl: 300, rdata: "another.target.example.".into() },
+            3 if !cnames.is_empty() => RecSpec { owner: (*sim::pick("build.refused_at", &cnames)).clone(), rtype: Rtype::TXT, ttl: 300, rdata: gen_rdata(Rtype::TXT) },
+            4 if !plain.is_empty() && plain.iter().any(|o| *o != APEX) => {
+                let below: Vec<&String> = plain.iter().copied().filter(|o| *o != APEX).collect();
+                RecSpec { owner: (*sim::pick("build.refused_at", &below)).clone(), rtype: Rtype::NS, ttl: 300, rdata: gen_rdata(Rtype::NS) }
+            }
+            5 if !cnames.is_empty() => RecSpec { owner: (*sim::pick("build.refused_at", &cnames)).clone(), rtype: Rtype::NS, ttl: 300, rdata: gen_rdata(Rtype::NS) },
+            6 if !cuts.is_empty() => RecSpec { owner: (*sim::pick("build.refused_at", &cuts)).clone(), rtype: Rtype::TXT, ttl: 300, rdata: gen_rdata(Rtype::TXT) },
+            7 => {
+                other_class = true;
+                RecSpec { owner: sim::pick("build.refused_at_any", &owners).clone(), rtype: Rtype::TXT, ttl: 300, rdata: gen_rdata(Rtype::TXT) }
+            }
+            _ => continue,
+        };
+        let rec = if other_class {
+            let other = if zone_class() == Class::IN { Class::CH } else { Class::IN };
+            parse_record(&format!("{} {} {} {} {}", spec.owner, spec.ttl, other, spec.rtype, spec.rdata))
+        } else {
+            spec.record()
+        };
+        match zf.insert(rec) {
+            Err(_) => {
+                sim::stat("fault.record_refused_by_the_loader");
+            }
+            // (Which records a loader refuses is its business; one it takes
+            // after all belongs to the zone, and this run's comparison with
+            // the accepted records is off.)
+            Ok(()) => {
+                sim::stat("probe.loader_accepted_a_record_expected_to_be_refused");
+                LOADER_TOOK_AN_OFFER.with(|c| c.set(true));
+            }
+        }
+    }
+}
+
+thread_local! {
+    pub static LOADER_TOOK_AN_OFFER: std::cell::Cell<bool> = const { std::cell::Cell::new(false) };
 }
 
 // ------------------------------------------------------------------- model
